@@ -32,13 +32,16 @@ class C28(vlib.Spec):
             "non-trivial = >= 2 ticks, >= 2 items and some output")
 
     def flows(self):
-        return [f for f, s in hydro.FLOWS.items() if self.prop in s["props"]]
+        return [f for f, s in hydro.FLOWS.items() if self.prop in s["props"] and not s.get("net")]
+
+    def all_flows(self):
+        return self.flows() + hydro.net_flows(self.prop)
 
     def translate(self):
         """translate the corpus flows from the builder's IR dump (once per run) and make the
         generated definitions available to every Coq case file"""
         if not hasattr(self, "tr"):
-            self.tr = hydro.Translated(self.ctx, self.bin, self.flows())
+            self.tr = hydro.Translated(self.ctx, self.bin, self.all_flows() if hasattr(self, "all_flows") else self.flows())
             self.imports = self.imports + "\nOpen Scope N_scope.\n" + self.tr.defs + "\nClose Scope N_scope.\n"
             for f in self.tr.failed:
                 self.ctx.log("IR-TRANSLATION:", f, self.tr.report[f].get("why"))
@@ -47,8 +50,8 @@ class C28(vlib.Spec):
     def gen(self, rng, tier, n):
         self.translate()
         fl = self.flows()
-        return (hydro.corpus_cases(self.prop) + hydro.emit_cases(fl) + hydro.gen_repeat_cases(rng, tier, fl)
-                + hydro.gen_partition_cases(rng, tier, fl))
+        return (hydro.corpus_cases(self.prop) + hydro.emit_cases(fl) + hydro.gen_net_cases(rng, tier, self.prop)
+                + hydro.gen_repeat_cases(rng, tier, fl) + hydro.gen_partition_cases(rng, tier, fl))
 
     def n_cases(self, tier):
         return 0
@@ -56,6 +59,8 @@ class C28(vlib.Spec):
     def to_coq(self, case, res):
         tr = self.translate()
         flow = case["flow"]
+        if hydro.FLOWS.get(flow, {}).get("net"):
+            return hydro.net_term(tr, case, res)
         if case.get("k") == "syntax":
             if flow in tr.failed:
                 return 1
